@@ -1036,7 +1036,7 @@ def generate(rng, tier):
 
 
 def generate_(rng, tier):
-    n = 800 if tier == "quick" else 10000
+    n = 800 if tier == "quick" else 8000      # thorough: 10000 before the audit made a template cost ~1.7x (8000: ~6 min)
     for kind, t in FIXED:
         yield dict(tpl=t, kind=kind, compare=True, streams=True, variants=[0, 1, 2, 3])
     for kind, t in FIXED_ORACLE_ONLY:
